@@ -93,7 +93,11 @@ func loopBody(pipestanceBox *pipestanceHolder,
 			pipestanceBox.UpdateState(state.Prefixed(core.CleanupPrefix))
 		}
 		if !attemptRetry(pipestance, pipestanceBox, ctx) {
-			pipestance.Unlock()
+			// An inspecting (read-only) instance never took the lock: the
+			// one which is there belongs to somebody else.
+			if !pipestanceBox.readOnly {
+				pipestance.Unlock()
+			}
 			cleanupFailed(pipestance, pipestanceBox, noExit, ctx)
 		}
 		return false
